@@ -134,6 +134,16 @@ def subclasscheck(t1, t2):
     o1 = get_origin(t1)
     o2 = get_origin(t2)
 
+    if (
+        o1 is type
+        and o2 is None
+        and t2 is not type
+        and isinstance(t2, type)
+        and issubclass(t2, type)
+    ):
+        # type[X] against a metaclass: the classes whose metaclass it is
+        return isinstance(get_args(t1)[0], t2)
+
     if not isinstance(o1, type):
         o1 = None
     if not isinstance(o2, type):
